@@ -465,6 +465,6 @@ fn main() {
          written with the identical literal text in both paths; non-trivial = a multi-replica pipeline was hit and (some key value went through both paths or a round-robin pipeline was hit)",
     );
     check.assume("the mock worker (in-process warp server) faithfully records what inject_batch posts; 'same key value' = same literal value (ints by integer value, floats by f64 value, strings by decoded text); the literal \"-0\" is not generated");
-    check.explore("routing", strat, 3_000, 80_000, run);
+    check.explore("routing", strat, 20_000, 400_000, run);
     check.finish();
 }
